@@ -100,6 +100,16 @@ def BatchEqMapSoloStatement : Prop :=
       outs.map (·.1) = doc.map fun x =>
         (sentenceL pickHeap G (addRoots categories roots).2 cfg maxLength (GlueRun.init categories roots) x).1
 
+/-- C11 for `depccg.parsing.run` itself: whatever the chunk size and the number of worker
+    processes, the call returns one result per sentence, in input order, each being the result of
+    parsing that sentence alone from a fresh category table and an empty rule cache -/
+def ParsingRunEqMapSoloStatement : Prop :=
+  ∀ (G : GlueRun.CatGrammar) (categories roots : List Cat) (cfg : Cfg) (maxLength : Option Nat)
+    (maxChunk procs : Nat) (doc : List SentIn),
+    categories.Nodup → (∀ x ∈ doc, LexOK categories x) →
+    parsingRun G categories roots cfg maxLength maxChunk procs doc = .ok (doc.map fun x =>
+      (sentenceL pickHeap G (addRoots categories roots).2 cfg maxLength (GlueRun.init categories roots) x).1)
+
 /-- a category list with duplicates is rejected before anything is parsed -/
 def BatchRejectsDuplicatesStatement : Prop :=
   ∀ (G : GlueRun.CatGrammar) (categories roots : List Cat) (cfg : Cfg) (maxLength : Option Nat)
